@@ -100,6 +100,7 @@ type Exec struct {
 	batches    map[uint64]uint64       // last index of an acked batch -> first index (C09 commit boundaries)
 	stableKept []keptStable            // C08: slices returned by Get, kept with a private copy
 	retained   []retainedRead          // C12 aliasing: GetLog results kept for later re-verification
+	reuseLog   raft.Log                // destination re-used by every second GetLog of the plan (shallow copies are retained)
 	sigParts   []string
 	caseSeq    []string
 	ackedApp   int
@@ -1347,7 +1348,18 @@ func (ex *Exec) doGet(op OpSpec) {
 		}
 	}
 	var l raft.Log
-	err := ex.call("GetLog", func() error { return ex.w.GetLog(idx, &l) })
+	// Every second read decodes into ONE raft.Log value the caller keeps re-using (the `var l raft.Log; for ... {
+	// GetLog(i, &l); out = append(out, l) }` pattern) and retains a shallow copy of the result: a log returned by
+	// GetLog must stay unchanged when a later read decodes into the same destination (seeded C12i).
+	reuse := op.Var%2 == 1
+	err := ex.call("GetLog", func() error {
+		if reuse {
+			e := ex.w.GetLog(idx, &ex.reuseLog)
+			l = ex.reuseLog
+			return e
+		}
+		return ex.w.GetLog(idx, &l)
+	})
 	ex.want["log_entries_read"]++
 	if ex.stop() {
 		return
@@ -1910,6 +1922,7 @@ func (ex *Exec) finishStats() {
 	add("dirops_lost", ds.DirOpsLost)
 	add("creates_lost", ds.CreatesLost)
 	add("len_shrunk", ds.LenShrunk)
+	add("len_unaligned", ds.LenUnaligned)
 	add("stale_bytes_behind", ds.StaleBytesBehind)
 	for k, v := range ex.seamKinds {
 		ex.stats.Probes.Add("seam_"+k, v)
